@@ -2439,6 +2439,7 @@ static int yaml_import(vnaproperty_yaml_t *vymlp,
 		    pair < node->data.mapping.pairs.top; ++pair) {
 		yaml_node_t *key, *value;
 		vnaproperty_t **subtree;
+		int levels;
 
 		key = yaml_document_get_node(document, pair->key);
 		if (key->type != YAML_SCALAR_NODE) {
@@ -2449,6 +2450,16 @@ static int yaml_import(vnaproperty_yaml_t *vymlp,
 		    continue;
 		}
 		value = yaml_document_get_node(document, pair->value);
+		levels = descriptor_levels("%s",
+			(const char *)key->data.scalar.value);
+		if (depth + levels > VNAPROPERTY_MAX_DEPTH) {
+		    /* refuse before the key builds its levels */
+		    _vnaproperty_yaml_error(vymlp, VNAERR_SYNTAX,
+			    "%s (line %ld) error: collections nested more "
+			    "than %d deep", vymlp->vyml_filename,
+			    key->start_mark.line + 1, VNAPROPERTY_MAX_DEPTH);
+		    goto out;
+		}
 		if ((subtree = vnaproperty_set_subtree(rootptr, "%s",
 			    (const char *)key->data.scalar.value)) == NULL) {
 		    _vnaproperty_yaml_error(vymlp, VNAERR_SYSTEM,
@@ -2456,9 +2467,8 @@ static int yaml_import(vnaproperty_yaml_t *vymlp,
 			    vymlp->vyml_filename, strerror(errno));
 		    goto out;
 		}
-		if (yaml_import(vymlp, subtree, value, &self, depth +
-			    descriptor_levels("%s",
-				(const char *)key->data.scalar.value)) == -1) {
+		if (yaml_import(vymlp, subtree, value, &self,
+			    depth + levels) == -1) {
 		    goto out;
 		}
 	    }
